@@ -89,12 +89,19 @@ pub fn init_process() {
     let _ = Nop;
     // A trivial execution makes shuttle install its hook (a `Once`).
     shuttle::Runner::new(Once(false), shuttle_config(1000)).run(|| {});
+    // Model panics are part of the workload (fault P): a panic that unwinds inside a simulated
+    // thread and is caught by the code under test must not end the execution (vendored
+    // shuttle-engine, "nxv patch").
+    shuttle_engine::runtime::execution::set_tolerate_task_panics(true);
     std::panic::set_hook(Box::new(|info| {
         let loc = info.location().map(|l| format!("{}:{}:{}", l.file(), l.line(), l.column())).unwrap_or_default();
         let msg = crate::driver::payload_text(info.payload());
         LAST_PANIC.with(|l| *l.borrow_mut() = Some(format!("{} @ {}", msg, loc)));
         if std::env::var_os("NXV_PANIC_TRACE").is_some() {
             eprintln!("[panic] {} @ {}", msg, loc);
+            if std::env::var_os("NXV_PANIC_BT").is_some() {
+                eprintln!("{}", std::backtrace::Backtrace::force_capture());
+            }
         }
     }));
 }
